@@ -61,7 +61,7 @@ def mutants_of(src, fn):
     for n in ast.walk(fn):
         if n is not fn and isinstance(n, (ast.FunctionDef, ast.AsyncFunctionDef, ast.Lambda)):
             continue
-        if not hasattr(n, "lineno") or in_message(n, parents):
+        if not hasattr(n, "lineno") or not hasattr(n, "end_col_offset") or in_message(n, parents):
             continue
         pos = (n.lineno, n.col_offset, n.end_lineno, n.end_col_offset)
         text = ast.get_source_segment(full, n)
